@@ -13,6 +13,10 @@ fn usage() -> ! {
 
 fn main() {
     install_panic_hook();
+    // nothing of the caller's shell session may leak into the shells under test
+    for v in ["OLDPWD", "PWD", "SHLVL", "_"] {
+        std::env::remove_var(v);
+    }
     let args: Vec<String> = std::env::args().collect();
     if args.len() < 2 {
         usage();
